@@ -749,7 +749,7 @@ func main() {
 	// cmd/pdfcpu: os.Stdout mentions and SetCLILogger calls outside handlers are listed for the record
 	var sb strings.Builder
 	sb.WriteString("(* GENERATED by go/cmd/genc41 from pkg/cli/*.go and cmd/pdfcpu/*.go — do not edit. *)\n")
-	sb.WriteString("From Coq Require Import String List Bool.\nImport ListNotations.\nOpen Scope string_scope.\n\n")
+	sb.WriteString("From Coq Require Import String List Bool.\nImport ListNotations.\nLocal Open Scope string_scope.\n\n")
 	sb.WriteString("Record cli_row := mkCli { c_name : string; c_file : string; c_ndash : nat; c_nreject : nat;\n")
 	sb.WriteString("  c_stream_direct : bool; c_stdin_direct : bool; c_reach_stream : bool; c_reach_stdin : bool;\n")
 	sb.WriteString("  c_stdout : bool; c_stdout_guarded : bool; c_stdin : bool; c_logoff : bool; c_ret_nil : bool; c_does_io : bool }.\n\n")
